@@ -209,6 +209,15 @@ def main():
             return rnd.choice(["rd", "fzc", "wr", "done", "donefz", "donebool"] + cmdobjs)
         return scal()
 
+    def has_array(v):
+        if isinstance(v, numpy.ndarray):
+            return True
+        if isinstance(v, (list, tuple)):
+            return any(has_array(x) for x in v)
+        if isinstance(v, dict):
+            return any(has_array(x) for x in v.values())
+        return False
+
     cases, descr, fails = [], [], []
     dist = {"declarations": len(decl_list), "outcomes": {}, "raw_kinds": {}, "with_wd": 0, "without_wd": 0, "unprintable": 0,
             "idempotence_checked": 0, "per_declaration": {}}
@@ -227,8 +236,8 @@ def main():
         v = valid_value(p) if rnd.random() < 0.65 else rvalue()
         jobs.append((kd, p, where, v, rnd.choice(["A", "A", "A", "B", None])))
     for kd, p, where, v, with_wd in jobs:
-        if isinstance(v, numpy.ndarray) and kd not in ("PData", "PAny"):
-            continue      # arrays are not among the raw kinds the parser or the API delivers for these declarations
+        if has_array(v) and "PData" not in kd and "PAny" not in kd:
+            continue      # arrays (at any nesting) are not among the raw kinds the parser or the API delivers for these declarations
         program, cur_wd = progs[with_wd]
         dist["with_wd" if with_wd else "without_wd"] += 1
         v0 = copy.deepcopy(v) if not isinstance(v, Command) and not (isinstance(v, list) and any(isinstance(x, Command) for x in v)) else None
